@@ -781,7 +781,8 @@ def _name_is_sibling_id(ctx):
 
 
 def oracle(ctx, broken, hints):
-    n = ctx.budget(10, 100) * (4 if broken else 1)
+    n = ctx.budget(10, 80) * (4 if broken else 1)
+    n_prov = ctx.budget(4, 16) * (4 if broken else 1)        # scenes of c03_prov (about 3 x the cost of the others)
     steps = ctx.budget(50, 90)
     failures = []
     evals = 0
@@ -797,7 +798,7 @@ def oracle(ctx, broken, hints):
             fs, e = _kinds_scenario(ctx, rng, str(k))
             failures += fs
             evals += e
-        if k % 3 == 0:
+        if k % 3 == 0 and k // 3 < n_prov:
             # handles of every provenance (create, owning container, link lists, role links, searches, kept, reopened)
             fs, e = c03_prov.scenario(ctx, rng, steps // 2 + 5, str(k))
             failures += fs
